@@ -4,6 +4,8 @@
 import CorgiProps.C16
 import CorgiSpec.Ops
 import CorgiProofs.SumSpec
+import CorgiProofs.Pointwise
+import CorgiSpec.Oracle
 
 namespace Corgi
 variable {S : Type} [Add S] [Mul S] [Neg S] [Sub S] [ScalarOps S]
@@ -53,6 +55,17 @@ theorem C07_sumAll (a : Tensor S) : sumAll a = a.vals.foldl (· + ·) zero := rf
 /-! non-vacuity -/
 example : (⟨[2, 3], [1, 2, 3, 4, 5, (6 : Int)]⟩ : Tensor Int).WF := by simp [Tensor.WF, prod]
 
+
+/-- **softmax normalises every row of the last dimension**: for every well-formed array of rank ≥ 1
+    (any number of leading dimensions, any row length), `softmax a` is the specification's tensor —
+    `a`'s dimensions, element `i` = `exp aᵢ / Σ exp` over `i`'s row (composition of the point-wise
+    `exp`, `sum(1)` and the broadcast division, each proved). -/
+theorem C07_softmax [BEq S] (a : Tensor S) (L : List Nat) (n : Nat) (hd : a.dims = L ++ [n]) (hwf : a.WF) :
+    softmax a = .ok (specSoftmax a) := by
+  rw [softmax_spec a L n hd hwf]
+  congr 1
+  simp [specSoftmax, softmaxFlat, hd]
+
 end Corgi
 
 #print axioms Corgi.C07_reshape
@@ -63,3 +76,4 @@ end Corgi
 #print axioms Corgi.C07_sum_dims
 #print axioms Corgi.C07_sum_zero
 #print axioms Corgi.C07_sumAll
+#print axioms Corgi.C07_softmax
